@@ -41,9 +41,10 @@ func (m *lock) Unlock(l uint8) {
 // This is concurrency-safe.
 func (m *lock) LockSafe() uint8 {
 	m.mu.Lock()
+	// Deferred, as bitPool.Get panics when all bits are in use.
+	defer m.mu.Unlock()
 	lock := m.bitPool.Get()
 	m.locks.Set(lock)
-	m.mu.Unlock()
 	return lock
 }
 
